@@ -116,7 +116,10 @@ func Translate(v *vrt.Ctx) {
 	ctx := context.Background()
 	store := mem.NewMemDb()
 	store.Connect(ctx, "")
-	nor, _ := lang.LanguageFromCode("nor")
+	// the language looked up in: Norwegian, or English (which is also the
+	// library's nominal default code: a stored English translation is a
+	// translation like any other)
+	nor, _ := lang.LanguageFromCode([]string{"nor", "eng"}[v.Choice("translation-language", 2)])
 	put := func(typ uint8, key string, l *lang.Language, val string) {
 		store.SetLock(typ, false)
 		store.SetPrefix(typ)
